@@ -398,6 +398,10 @@ def run(ctx):
     if ctx.get('replay'):
         rp = json.load(open(ctx['replay']))
         rep = rp.get('replay') or {}
+        from props import c06x
+        if rep.get('kind') in c06x.KINDS:
+            # a history of the families of props/c06x.py / c08x.py (round trips through cached_tasks, ...)
+            return c06x.replay_result(c06x.run_for(ctx, 'C08', c06x.FAMILIES, 108))
         if rep.get('kind') == 'main-script':
             from props import c08x
             rs = c08x.run_scripts((rep['backend'],))
@@ -428,13 +432,24 @@ def run(ctx):
     sbox = {}
     sth = threading.Thread(target=lambda: sbox.update(recs=c08x.run_scripts()))
     sth.start()
+    # alongside: round trips run -> cached_tasks -> is_cached / cache_key / run_tasks(listed) / uncache_tasks(listed) over
+    # dict parameters with unsorted keys (props/c08x.py rt_*); the violations that are labelled with C08 are this check's
+    from props import c06x
+    rbox = {}
+    rth = threading.Thread(target=c06x.run_for_thread, args=(ctx, 'C08', ('round-trip',), 108, rbox))
+    rth.start()
     recs, errors = run_parallel(cases, 13, 50 if tier == 'quick' else 800)
     sth.join()
+    rth.join()
+    rt = rbox.get('x') or dict(errors=['round-trip family did not finish'])
+    errors += rt.get('errors', [])
     infra = [r for r in recs if r.get('infra')]
     sinfra = [r['infra'] for r in sbox.get('recs', []) if r.get('infra')] + ([] if 'recs' in sbox else ['script history did not finish'])
     if errors or infra or sinfra:
         return dict(infra_error='; '.join(errors + [r['infra'] for r in infra[:2]] + sinfra))
     viol, dis = evaluate(recs)
+    viol = rt['violations'] + viol
+    dis = rt['disagreements'] + dis
     import driver
     mp = c08x.model_pattern(driver.run_lines([c08x.MODEL])[0])
     for r in sbox['recs']:
@@ -462,6 +477,7 @@ def run(ctx):
         return c['storage'] != 'none' and len(runs) >= 2 and (('U' in kinds) or any(op[1] for op in runs))
     dist = dict(
         main_script_histories=[r['backend'] for r in sbox['recs']],
+        **{k: v for k, v in rt['dist'].items() if k.startswith('round_trip')},
         histories=len(recs), operations=sum(len(r['case']['ops']) for r in recs),
         by_storage={s: sum(1 for r in recs if r['case']['storage'] == s) for s in STORAGES},
         runs_by_backend={b: sum(1 for r in recs for op in r['case']['ops'] if op[0] == 'R' and (op[5] if len(op) > 5 else 'serial') == b) for b in ('serial', 'fork')},
@@ -477,8 +493,8 @@ def run(ctx):
         wall_s=round(time.time() - t0, 1),
     )
     return dict(
-        evaluations=len(recs), distinct_nontrivial=len({json.dumps(r['case'], sort_keys=True) for r in recs if nontrivial(r['case'])}),
-        rule='generated operation histories (8 tasks with dependencies, 3 task types with cache kind pickle/second BaseCache subclass/None each, ~10% always-failing tasks, per-run failure sets chosen through the Lab context, 30% of the histories mixing serial and real fork runs), each history on ONE Lab and ONE storage object, each replayed on LocalStorage, FsspecStorage(LocalFileSystem), storage=None and a LocalStorage subclass that is falsy while empty (defines __len__); non-trivial = real storage, >= 2 runs and at least one bust_cache run or uncache_tasks call',
+        evaluations=len(recs) + rt['evaluations'], distinct_nontrivial=rt['nontrivial'] + len({json.dumps(r['case'], sort_keys=True) for r in recs if nontrivial(r['case'])}),
+        rule='generated operation histories (8 tasks with dependencies, 3 task types with cache kind pickle/second BaseCache subclass/None each, ~10% always-failing tasks, per-run failure sets chosen through the Lab context, 30% of the histories mixing serial and real fork runs), each history on ONE Lab and ONE storage object, each replayed on LocalStorage, FsspecStorage(LocalFileSystem), storage=None and a LocalStorage subclass that is falsy while empty (defines __len__); + round trips run -> cached_tasks -> (is_cached, cache_key vs entry, run_tasks(listed), uncache_tasks(listed)) over tasks of both cache kinds whose dict / frozendict parameters have keys in unsorted order, also inside lists, nested dicts and nested tasks; non-trivial = real storage, >= 2 runs and at least one bust_cache run or uncache_tasks call',
         samples=[dict(line=encode(r['case']), real=r['real']) for r in recs[:2]],
         violations=viol[:5], disagreements=dis[:5], distribution=dist,
         assumptions=['run() is the deterministic family of harness/histtasks.py (value = 1000*k + run stamp + dependency results)',
